@@ -5,7 +5,7 @@
    longitude, its isometric latitude and the fixed point of its iteration are exact, below); those are kernel-checked
    pointwise by Coq-Interval at every sampled input of the check (harness/props/C14.py, lemma-mode streams). *)
 From Coq Require Import Reals Lra.
-From TL Require Import Proofs.Atan2 Proofs.Bowring Proofs.CoordsENU Proofs.CoordsDeg Proofs.Lambert Proofs.LambertDeg.
+From TL Require Import Proofs.Atan2 Proofs.Bowring Proofs.CoordsENU Proofs.CoordsDeg Proofs.Lambert Proofs.LambertDeg Proofs.LambertConv.
 Open Scope R_scope.
 
 (* ECEF -> local -> ECEF and local -> ECEF -> local are exact, for every base (the rotation angles are those the code computes from the base) *)
@@ -73,6 +73,19 @@ Print Assumptions C14_lambert_latiso_exact.
 Theorem C14_lambert_latitude_fixpoint lat k : -90 < lat < 90 -> inv_iter LE k (latiso LE (d2r lat)) (d2r lat) * 180 / PI = lat.
 Proof. exact (l93_lat_fixpoint lat k). Qed.
 Print Assumptions C14_lambert_latitude_fixpoint.
+
+(* ... and the ten iterations converge to it from the spherical first guess, for EVERY latitude: one step is a contraction of
+   factor E^2/(1-E^2) < 0.0068 (mean value theorem), so the returned latitude is within 1e-18 degree of the true one *)
+Theorem C14_lambert_latitude_converges lon lat : -90 < lat < 90 ->
+  Rabs (snd (let '(X, Y) := to_l93 lon lat in from_l93 X Y) - lat) <= 1 / 10 ^ 18.
+Proof. exact (l93_lat_converges lon lat). Qed.
+Print Assumptions C14_lambert_latitude_converges.
+
+(* the Lambert-93 round trip of the statement, on the whole zone (real arithmetic): longitude exact, latitude to 1e-18 degree *)
+Theorem C14_lambert_roundtrip lon lat : -90 < lat < 90 -> - (PI / 2) < Ln * (d2r lon - Ll0) < PI / 2 ->
+  let back := (let '(X, Y) := to_l93 lon lat in from_l93 X Y) in fst back = lon /\ Rabs (snd back - lat) <= 1 / 10 ^ 18.
+Proof. exact (l93_roundtrip lon lat). Qed.
+Print Assumptions C14_lambert_roundtrip.
 
 (* non-vacuity: the hypotheses of the two exactness theorems hold at ordinary positions *)
 Example C14_example : (-180 < 2 <= 180) /\ (-90 < 48 < 90) /\ - nrad Re Fe (d2r 48) < 100.
